@@ -627,6 +627,11 @@ def rule_cache(prog: Program) -> List[Instance]:
             else:
                 out.append(Instance("R-CACHE", f"{fi.qual}#KEYCOMPLETE", OK, f"key function {kf.qual} reads every parameter {kparams}", kf.where()))
 
+        # KEYNORM: a lossy normalisation in the key (case folding, stripping) merges differently spelled
+        # arguments into one entry, so the cached value must be normalised under the same test - otherwise
+        # the value (and everything derived from it: str, hash, token) depends on which spelling came first
+        out.extend(_keynorm(fi, kf))
+
         # CRS-tagged parameters: the key must distinguish their CRS (the whole object or its .crs),
         # otherwise a hit returns a result computed for a look-alike in another CRS and skips the guard
         from .crsguard import TAGGED
@@ -659,6 +664,70 @@ def rule_cache(prog: Program) -> List[Instance]:
     if n_cached == 0:
         out.append(Instance("R-CACHE", "crs#cached-functions", UNDET, "no cachetools.cached function found", crs_mod.relpath))
     out += _transformer_order(prog)
+    return out
+
+
+FOLDS = {"upper", "lower", "casefold", "strip", "title"}
+
+
+def _cond_sig(cs) -> Set[Tuple[str, Tuple]]:
+    """Signature of the call-shaped tests that hold at a point: (method, constant arguments)."""
+    sig: Set[Tuple[str, Tuple]] = set()
+    for e, p in cs:
+        neg = False
+        while isinstance(e, ast.UnaryOp) and isinstance(e.op, ast.Not):
+            e, neg = e.operand, not neg
+        if isinstance(e, ast.Call) and (p != neg):
+            sig.add((call_name(e), tuple(a.value for a in e.args if isinstance(a, ast.Constant))))
+    return sig
+
+
+def _fold_sites(fn: FuncInfo) -> List[Tuple[str, Set[Tuple[str, Tuple]], ast.AST]]:
+    """(fold method, condition signature, statement) for every return/assignment whose value is a
+    folded string (directly `x.upper()` or a name bound to one)."""
+    from .guards import conds_at
+
+    folded: Dict[str, str] = {}
+    for n in walk_own(fn.node):
+        if isinstance(n, ast.Assign) and len(n.targets) == 1 and isinstance(n.targets[0], ast.Name) and isinstance(n.value, ast.Call) and isinstance(n.value.func, ast.Attribute) and n.value.func.attr in FOLDS:
+            folded[n.targets[0].id] = n.value.func.attr
+    cond = Conditions(fn.body)
+    out = []
+    for n in walk_own(fn.node):
+        v = None
+        if isinstance(n, ast.Return):
+            v = n.value
+        elif isinstance(n, ast.Assign) and len(n.targets) == 1 and isinstance(n.targets[0], ast.Name) and n.targets[0].id not in folded:
+            v = n.value
+        if v is None:
+            continue
+        m = None
+        if isinstance(v, ast.Call) and isinstance(v.func, ast.Attribute) and v.func.attr in FOLDS:
+            m = v.func.attr
+        elif isinstance(v, ast.Name) and v.id in folded:
+            m = folded[v.id]
+        if m is None:
+            continue
+        out.append((m, _cond_sig(conds_at(cond, n)), n))
+    return out
+
+
+def _keynorm(fi: FuncInfo, kf: FuncInfo) -> List[Instance]:
+    out: List[Instance] = []
+    ksites = [x for x in _fold_sites(kf) if isinstance(x[2], ast.Return)]
+    if not ksites:
+        return out
+    vsites = _fold_sites(fi)
+    for m, sig, st in ksites:
+        csig = {s_ for s_ in sig if s_[0] not in ("isinstance",)}
+        match = [v for v in vsites if v[0] == m and {s_ for s_ in v[1] if s_[0] != "isinstance"} == csig]
+        cid = f"{fi.qual}#KEYNORM:{m}|{','.join(sorted(f'{a}{list(b)}' for a, b in csig)) or 'always'}"
+        if match:
+            out.append(Instance("R-CACHE", cid, OK, f"key folds with .{m}() under {sorted(csig) or 'no condition'} and the cached value is folded under the same test", kf.where(st)))
+        else:
+            have = sorted({tuple(sorted(v[1])) for v in vsites if v[0] == m})
+            out.append(Instance("R-CACHE", cid, BAD,
+                                f"the key is folded with .{m}() under {sorted(csig) or 'no condition'} but {fi.name} folds its result only under {have or 'nothing'}: differently spelled arguments share an entry whose value keeps the spelling that came first (history-dependent str/hash/token)", kf.where(st)))
     return out
 
 
